@@ -16,9 +16,11 @@ Inductive zop :=
 | ZWiden (k : Z) (v : Z)      (* k-th entry of the from-list: [2; w] | [0] if v is not a value of the source *)
 | ZArith (o : Z) (a b : Z)    (* o = 0 add, 1 sub, 2 mul : [2; w] | [8; code] | [0] if an operand is out of range *)
 | ZNeg (a : Z)                (* [2; w] | [8; code] | [0] | [7] if the type has no Neg *)
+| ZGrid (o : Z) (xs ys : list Z) (* every pair (a, b), a in xs (outer), b in ys: [10; hash of the ZArith observations; count] *)
 | ZCmp (a b : Z).             (* [4; eq; ne; lt; le; gt; ge; cmp+1; partial_cmp+1; max; min] *)
 
-Inductive tcase := TCase (dbg : bool) (ty : Z) (ops : list zop).
+(* da = cfg!(debug_assertions), oc = overflow-checks of the build the observations come from *)
+Inductive tcase := TCase (da oc : bool) (ty : Z) (ops : list zop).
 
 Definition zb (b : bool) : Z := if b then 1 else 0.
 Definition zn (k : nat) : Z := Z.of_nat k.
@@ -51,6 +53,18 @@ Definition in_src (s : src) (v : Z) : bool :=
   | None => false
   end.
 
+Definition arith_obs (c : cfg) (r : row) (p : binop) (a b : Z) : list Z :=
+  if in_rangeb r a && in_rangeb r b then enc_res (arith c r p a b) else [0].
+
+(* order-sensitive hash of a sequence of observations (same function in harness/src/bin/c15.rs) *)
+Definition hstep (h x : Z) : Z := (h * 1000003 + x) mod 2305843009213693951.
+Definition hobs (h : Z) (l : list Z) : Z :=
+  match l with
+  | [t; v] => hstep (hstep h t) v
+  | [t] => hstep (hstep h t) 0
+  | _ => hstep (hstep h (-1)) 0
+  end.
+
 Definition run_op (c : cfg) (r : row) (o : zop) : list Z :=
   match o with
   | ZProfile => [3; zb (debug_assertions c); zb (overflow_checks c)]
@@ -65,7 +79,13 @@ Definition run_op (c : cfg) (r : row) (o : zop) : list Z :=
       end
   | ZArith o a b =>
       match binop_of o with
-      | Some p => if in_rangeb r a && in_rangeb r b then enc_res (arith c r p a b) else [0]
+      | Some p => arith_obs c r p a b
+      | None => [-3]
+      end
+  | ZGrid o xs ys =>
+      match binop_of o with
+      | Some p => [10; fold_left (fun h a => fold_left (fun h b => hobs h (arith_obs c r p a b)) ys h) xs 7;
+                   Z.of_nat (List.length xs * List.length ys)]
       | None => [-3]
       end
   | ZNeg a =>
@@ -79,9 +99,9 @@ Definition run_op (c : cfg) (r : row) (o : zop) : list Z :=
 
 Definition run_case (c : tcase) : list (list Z) :=
   match c with
-  | TCase dbg ty ops =>
+  | TCase da oc ty ops =>
       match nth_error types_table (Z.to_nat ty) with
-      | Some r => map (run_op (profile dbg) r) ops
+      | Some r => map (run_op (mkCfg da oc) r) ops
       | None => [[-3]]
       end
   end.
